@@ -1,6 +1,7 @@
 import GFS.Model.FsTree
 import GFS.Model.Front
 import GFS.Spec.S3
+import GFS.Model.Bolt
 /-
   backend/s3afero MultiBucketBackend (multi.go, meta.go, util.go) at the level of the
   `gofakes3.Backend` interface, for bucket names that pass the create-bucket rule (the HTTP
@@ -178,5 +179,73 @@ def handle (md5 : Bytes → Bytes) (s : FsS) : Spec.S3.Op → FsS × Res HOut
         | .panic x => (s, .panic x)
         | .ok src =>
           lift (copyObject md5 s sb sk dstB dstK (mergeMeta [] (src.md.filter (fun p => !(p.1 == Front.aclKey))))) fun h => .hash h
+
+end GFS.Model.FsB
+
+/-! ### listings -/
+namespace GFS.Model.FsB
+open GFS GFS.Model
+
+/-- the key of an object file: its path joined with '/' -/
+def keyOf (p : Fs.Path) : Bytes := Bytes.join1 47 p
+
+/-- the object files of a bucket by key, in ascending key order — what `afero.Walk` visits,
+    after the `sort.Slice` that follows; the digest is the one `loadMeta` answers with -/
+def objMap (md5 : Bytes → Bytes) (bk : Bkt) : SMap Bolt.BVal :=
+  bk.tree.files.foldl (fun m f => SMap.insert m (keyOf f.1) (.obj ⟨f.2, md5 f.2, []⟩)) []
+
+/-- `sort.Slice(response.CommonPrefixes, …)` on the de-duplicated prefixes -/
+def sortBytes (l : List Bytes) : List Bytes := SMap.keys (l.foldl (fun (m : SMap Unit) x => SMap.insert m x ()) [])
+
+/-- `getBucketWithArbitraryPrefixLocked` (no delimiter, or a delimiter other than '/'; after
+    fix 721d405): every object file is matched against the prefix, a key with the delimiter
+    after the prefix goes to the common prefixes, then both lists are sorted -/
+def listWalk (md5 : Bytes → Bytes) (bk : Bkt) (p : Prefix) : ObjectList :=
+  let r := Bolt.listLoop p (objMap md5 bk) ⟨[], [], false, []⟩
+  { r with prefixes := sortBytes r.prefixes }
+
+end GFS.Model.FsB
+
+namespace GFS.Model.FsB
+open GFS GFS.Model
+
+/-- `strings.LastIndexByte(s, c)` -/
+def lastIndexOf (c : UInt8) : Bytes → Option Nat
+  | [] => none
+  | x :: xs =>
+    match lastIndexOf c xs with
+    | some i => some (i + 1)
+    | none => if x == c then some 0 else none
+
+/-- `Prefix.FilePrefix()` when the delimiter is '/': the directory part and the remaining part
+    of the prefix -/
+def filePrefix (p : Prefix) : Bytes × Bytes :=
+  if !p.hasPrefix then ([], [])
+  else match lastIndexOf 47 p.pfx with
+    | none => ([], p.pfx)
+    | some i => (p.pfx.take i, p.pfx.drop (i + 1))
+
+/-- `getBucketWithFilePrefixLocked` (delimiter '/'): the directory part of the prefix must be a
+    clean relative path (else nothing is listed) and a directory (else nothing is listed); its
+    entries whose names start with the remaining part are listed — files as Contents (ReadDir
+    returns them by name, i.e. by key), directories as CommonPrefixes `path/name/` (sorted) -/
+def listDir (md5 : Bytes → Bytes) (bk : Bkt) (p : Prefix) : ObjectList :=
+  let pp := (filePrefix p).1
+  let part := (filePrefix p).2
+  let dir : Option Fs.Path := if pp.isEmpty then some [] else Fs.keyPath pp
+  match dir with
+  | none => ⟨[], [], false, []⟩
+  | some P =>
+    if !(P.isEmpty || Fs.isDir bk.tree P) then ⟨[], [], false, []⟩
+    else
+      let inDir (f : Fs.Path) : Bool := !f.isEmpty && f.dropLast == P && Bytes.hasPrefix (f.getLast?.getD []) part
+      { contents := (objMap md5 bk).filterMap (fun q =>
+          if inDir (Bytes.splitOn1 47 q.1) then
+            (match q.2 with
+             | .obj o => some ⟨q.1, o.body.length, o.hash⟩
+             | .bucketRec => none)
+          else none),
+        prefixes := sortBytes ((bk.tree.dirs.filter inDir).map (fun d => keyOf d ++ [47])),
+        truncated := false, next := [] }
 
 end GFS.Model.FsB
